@@ -33,10 +33,26 @@ def _all_succs(t):
     return out
 
 
+def fold_literal_switches(raw):
+    """`if false { .. }` / `if true { .. }` written as a literal in the source (not the value of `cfg!(..)`, which the debug/release rules need to
+    see as a test): the test has one outcome"""
+    n = 0
+    for blk in raw["blocks"]:
+        t = blk["term"]
+        if t["k"] == "switch" and t["discr"]["k"] == "const" and "val" in t["discr"] and not t["discr"].get("span") \
+                and not (t.get("span") or {}).get("exp"):
+            v = t["discr"]["val"]
+            tg = [tb for x, tb in t["targets"] if x == v]
+            blk["term"] = {"k": "goto", "target": tg[0] if tg else t["otherwise"], "span": t.get("span"), "folded": v}
+            n += 1
+    return n
+
+
 def thread_flags(raw, types):
     if raw.get("_threaded"):
         return 0
     raw["_threaded"] = True
+    fold_literal_switches(raw)
     blocks = raw["blocks"]
     n_threaded = 0
     for _round in range(4):
